@@ -199,8 +199,9 @@ Lemma target_no_crlf t : target_shape t = true -> has_crlf_byte t = false.
 Proof.
   unfold target_shape. intro H. apply andb_true_iff in H as [_ H].
   eapply no_crlf_forallb; [|exact H]. intros x Hx. cbv beta in Hx.
-  apply negb_true_iff in Hx. apply orb_false_iff in Hx as [Hx H10].
-  apply orb_false_iff in Hx as [_ H13]. rewrite H13, H10. reflexivity.
+  unfold target_byte in Hx. apply andb_true_iff in Hx as [Hx _]. apply N.leb_le in Hx.
+  destruct (x =? 13) eqn:E1; [apply N.eqb_eq in E1; lia|].
+  destruct (x =? 10) eqn:E2; [apply N.eqb_eq in E2; lia|]. reflexivity.
 Qed.
 
 Lemma method_no_crlf m : method_ok m = true -> has_crlf_byte m = false.
